@@ -1,0 +1,8 @@
+//go:build verif
+
+package multiproof
+
+// VerifLabels returns the package-level Fiat-Shamir labels (the slices themselves).
+func VerifLabels() [][]byte {
+	return [][]byte{labelC, labelZ, labelY, labelD, labelE, labelT, labelR, labelDomainSep}
+}
